@@ -74,7 +74,7 @@ func (t *topicsState) Set(message *packet.Publish) error {
 	defer t.mu.Unlock()
 	msg := &api.RetainedMessage{
 		Publish:   message,
-		LastAdded: clock(),
+		LastAdded: t.nextStamp(message.Topic),
 	}
 	err := t.set(message.Topic, msg)
 	if err != nil {
@@ -88,6 +88,20 @@ func (t *topicsState) Set(message *packet.Publish) error {
 	}
 	t.bcast.QueueBroadcast(simpleBroadcast(buf))
 	return nil
+}
+// nextStamp returns the timestamp of a local write to topic. It is the local
+// clock, unless the entry already stored for the topic carries a newer stamp
+// (written by a peer whose clock is ahead): the local write then has to be
+// stamped after it, otherwise this node would show its own write while every
+// other replica rejects it as outdated.
+func (t *topicsState) nextStamp(topic []byte) int64 {
+	now := clock()
+	if local, err := t.get(topic); err == nil && len(local) == 1 {
+		if last := crdt.GetLastEntryUpdate(local[0]); last >= now {
+			now = last + 1
+		}
+	}
+	return now
 }
 func (t *topicsState) set(topic []byte, msg *api.RetainedMessage) error {
 	buf, err := proto.Marshal(msg)
@@ -112,7 +126,7 @@ func (t *topicsState) Delete(topic []byte) error {
 			Topic:   topic,
 			Payload: nil,
 		},
-		LastDeleted: clock(),
+		LastDeleted: t.nextStamp(topic),
 	}
 	err := t.set(topic, msg)
 	if err != nil {
